@@ -234,3 +234,26 @@ func (c *CTree) LastWins() *CTree {
 	}
 	return out
 }
+
+// EqualTreeOrdered compares two trees member by member in document order (duplicate keys kept).
+func EqualTreeOrdered(a, b *CTree, path string) error {
+	if a.Kind != b.Kind {
+		return fmt.Errorf("%s: kind %c vs %c (%s vs %s)", path, a.Kind, b.Kind, a, b)
+	}
+	switch a.Kind {
+	case 'L', 'O':
+		if len(a.Elems) != len(b.Elems) {
+			return fmt.Errorf("%s: %d vs %d members", path, len(a.Elems), len(b.Elems))
+		}
+		for i := range a.Elems {
+			if a.Kind == 'O' && a.Keys[i] != b.Keys[i] {
+				return fmt.Errorf("%s: member %d key %q vs %q", path, i, a.Keys[i], b.Keys[i])
+			}
+			if err := EqualTreeOrdered(a.Elems[i], b.Elems[i], fmt.Sprintf("%s[%d]", path, i)); err != nil {
+				return err
+			}
+		}
+		return nil
+	}
+	return EqualTree(a, b, path)
+}
